@@ -102,9 +102,11 @@ type GenOpts struct {
 	// WrapEdit adds a file larger than the differ's 4 MiB + 2 block buffer whose only edits sit
 	// exactly where that buffer wraps (block 66) - unchanged before, unchanged after.
 	WrapEdit bool
+	// EmptyOld / EmptyNew: one side of the pair is a completely empty directory
+	EmptyOld, EmptyNew bool
 }
 
-var dirPool = []string{"", "", "a/", "a/b/", "c/", "c/d/e/", "data/", "bin/"}
+var dirPool = []string{"", "", "a/", "a/b/", "c/", "c/d/e/", "data/", "bin/", "dir with space/", "ünï/çødé 日本/", "-dash/.hidden/"}
 
 func sizeClass(n int64) string {
 	switch {
@@ -602,6 +604,16 @@ func GenPair(seed uint64, o GenOpts) *Pair {
 			p.New.PutSymlink("lnk-same", "a")
 			p.feat("symlink-kept")
 		}
+	}
+	if o.EmptyOld {
+		p.Old = NewBuild()
+		p.Edits = map[string]EditInfo{}
+		p.feat("old-build-empty")
+	}
+	if o.EmptyNew {
+		p.New = NewBuild()
+		p.Edits = map[string]EditInfo{}
+		p.feat("new-build-empty")
 	}
 	if o.ForceKindSwap > 0 {
 		g.kindSwapN(o.ForceKindSwap-1, o.ForceRename)
